@@ -201,6 +201,11 @@ func hasContainer(vals []*model.Value) bool {
 func GridCases(thorough bool) []WriteCase {
 	var out []WriteCase
 	add := func(via int, vals ...*model.Value) {
+		for _, v := range vals {
+			if !gen.TopLevelOK(v) {
+				return
+			}
+		}
 		for m := 0; m < NModes; m++ {
 			if m == ModePrettyQuiet {
 				continue
